@@ -376,6 +376,7 @@ def run(ck):
             ck.violation({'site': 'history', 'clause': c.split(':')[0], 'cmd': c.split(':')[1] if ':' in c else ''},
                          {'fs0': r['states'][0], 'cmds': r['cmds'], 'states': r['states']},
                          'Trace_Commands: %s is false on the observed history %s' % (c, r['cmds']))
+    update_conformance(ck)
     ck.extra['conformance_deviations_from_predicted_state'] = conf
     ck.extra['tlc_histories_with_state_mismatch'] = conf_notes
     ck.sample({'fs0': results[0]['states'][0], 'cmds': results[0]['cmds'], 'after': results[0]['states'][-1]})
@@ -393,3 +394,85 @@ def replay(ck, path):
     for k, (c, fr) in enumerate(zip(r['cmds'], r['frames'])):
         for clause, p in fr:
             ck.violation({'site': c, 'clause': clause, 'path': p}, case, 'replayed: %s %s' % (clause, p))
+
+
+# ------------------------------------------------------------------------------------- tally update (Update.tla) ----
+def _vtext(v):
+    return '%d.%d.%d%s' % (v['base'][0], v['base'][1], v['base'][2], '-dev' if v['dev'] else '')
+
+
+def _update_worker(states):
+    """Replays Update.tla states into the real cmd_update (release lookup, layout migration and self-replacement stubbed out:
+    what is observed is the DECISION - wording, whether the layout migration is entered, whether installation is attempted)."""
+    import argparse
+    import contextlib
+    import io
+    from tally import _version as V
+    from tally.commands import update as U
+    notes, n = [], 0
+    for st in states:
+        cur, latest, pre, chk, want = st['cur'], st['latest'], st['prerelease'], st['check'], st['out']
+        n += 1
+        # the order itself
+        if not latest.get('none'):
+            g = V._version_greater(_vtext(latest), _vtext(cur))
+            lv = (tuple(latest['base']), not latest['dev'])
+            cv = (tuple(cur['base']), not cur['dev'])
+            if g != (lv > cv):
+                notes.append('_version_greater(%s, %s) = %s' % (_vtext(latest), _vtext(cur), g))
+        entered = []
+        saved = (U.VERSION, U.get_latest_release_info, U.run_migrations, U.find_config_dir, U.perform_update)
+        U.VERSION = _vtext(cur)
+        U.get_latest_release_info = lambda prerelease=False, **kw: None if latest.get('none') else {'version': _vtext(latest), 'assets': {}, 'release_url': 'x'}
+        U.find_config_dir = lambda: '/nonexistent-config'
+        U.run_migrations = lambda cfg, skip_confirm=False: entered.append('layout') or None
+        U.perform_update = lambda info, force=False: (entered.append('install') or (True, 'installed'))
+        buf = io.StringIO()
+        rc = 0
+        try:
+            with contextlib.redirect_stdout(buf), contextlib.redirect_stderr(buf):
+                try:
+                    U.cmd_update(argparse.Namespace(prerelease=pre, check=chk, yes=True))
+                except SystemExit as e:
+                    rc = e.code or 0
+        finally:
+            U.VERSION, U.get_latest_release_info, U.run_migrations, U.find_config_dir, U.perform_update = saved
+        text = buf.getvalue()
+        wording = ('no-dev-build' if 'No development build found' in text else 'lookup-failed' if 'Could not check for version updates' in text else
+                   'already-latest' if 'Already on latest version' in text else 'dev-build-available' if 'Development build available' in text else
+                   'stable-available' if 'Stable release available' in text else 'new-version' if 'New version available' in text else 'other')
+        install = 'install' in entered or 'Cannot self-update when running from source' in text
+        got = {'wording': wording, 'layout': 'layout' in entered, 'install': install}
+        exp = {'wording': want['wording'], 'layout': want['layout'], 'install': want['install']}
+        if got != exp:
+            notes.append('update(cur=%s, latest=%s, prerelease=%s, check=%s): code %s, Update!Decide %s' % (
+                _vtext(cur), 'none' if latest.get('none') else _vtext(latest), pre, chk, got, exp))
+    return n, notes[:20]
+
+
+def update_conformance(ck):
+    """Update.tla: model-checked, and every state replayed into the real cmd_update.  No listed property speaks about `tally update`'s
+    decision, so a disagreement is recorded in the evidence as conformance information - never a verdict."""
+    import tlaval
+    ck.expect_model_ok('MC_Update', tlc.run('Update', 'MC_Update.cfg'))
+    ck.expect_model_ok('MC_Update/transitive', tlc.run('Update', 'MC_Update_trans.cfg'))
+    ck.expect_model_violation('MC_Update/neg', tlc.run('Update', 'MC_Update_neg.cfg'), 'Neg_OfferMeansNewer')
+    tmp = tempfile.mkdtemp(prefix='c20upd_')
+    try:
+        dump = os.path.join(tmp, 'u.dump')
+        res = tlc.run('Update', 'MC_Update_trans.cfg', dump=dump)
+        if res.error:
+            raise core.Machinery('Update dump failed: %s' % res.error)
+        outs = par.map_dump(dump, _update_worker_states)
+    finally:
+        shutil.rmtree(tmp, ignore_errors=True)
+    n = sum(o[0] for o in outs)
+    notes = [x for o in outs for x in o[1]]
+    ck.extra['update_decisions_replayed'] = n
+    ck.extra['update_decision_mismatches'] = len(notes)
+    ck.extra['update_decision_mismatch_examples'] = notes[:5]
+
+
+def _update_worker_states(states):
+    from props.engine_common import plain
+    return _update_worker([plain(s) for s in states])
